@@ -171,3 +171,46 @@ PROPERTIES["C02"] = {
          "encoded": _SOLVER_ENC},
     ],
 }
+
+PROPERTIES["C11"] = {
+    "level": "other",
+    "level_text": "bounded symbolic verification: for EVERY history (symbolic per-sample errors/losses, symbolic epsilon) of the configured length the real early-stopping monitor agrees with a reference monitor written from the property statement at every step; for every content of the stored tensors ml::result_t returns exactly the statistics stored under each (trial, fold) and the true optimum trial",
+    "level_note": SRE_NOTE,
+    "technique": SRE_TECH,
+    "explanation": "C11: gboost::early_stopping_t::done/round/value/values over all histories of length k; ml::result_t::{add, store, stats, value, values, extra, optimum_trial} with distinct symbols per stored tensor (an index mix-up is a solver-visible violation).",
+    "assumptions": SRE_ASSUME + ["error values boxed to [0,1000] (values >= DBL_MAX-eps would defeat the monitor's numeric_limits::max() sentinel and are outside the claim)"],
+    "bounds": {"history length": "<= 5 (quick), <= 7 (thorough)", "patience": "1..4", "trials x folds": "<= 3 x 3", "samples per stored tensor": "1..2"},
+    "outside": ["whole fit() of linear / gradient-boosting models (virtual weak-learner pools, inner solvers, tuner threads): statistics 'recomputed from scratch by predicting with the stored model' are not covered",
+                "boosting model prediction = bias + sum of weak learners; fold averaging of the final model"],
+    "units": [
+        {"engine": "sre", "harness": "C11_monitor", "sources": ["C11_monitor.cpp"],
+         "quick": ["mode=es;k=%d;pat=%d;valid=%d" % (k, p, v) for (k, p, v) in ((3, 1, 1), (5, 2, 1), (5, 3, 1), (4, 2, 0), (5, 4, 1), (5, 1, 1))] +
+                  ["mode=res;T=2;F=2", "mode=res;T=3;F=2;big=3", "mode=res;T=2;F=3;big=5", "mode=res;T=1;F=2;big=1"],
+         "thorough": ["mode=es;k=%d;pat=%d;valid=%d" % (k, p, v) for k in (3, 5, 7) for p in (1, 2, 3, 4) for v in (0, 1)] +
+                     ["mode=res;T=%d;F=%d;big=%d" % (t, f, b) for (t, f) in ((2, 2), (3, 2), (2, 3), (3, 3), (1, 1)) for b in (0, 1)],
+         "encoded": ["nano::gboost::early_stopping_t::done", "nano::gboost::mean_error", "nano::ml::result_t::{add, store, stats, value, values, extra, optimum_trial}",
+                     "nano::ml::store_stats", "nano::ml::load_stats", "nano::percentile (through store_stats)"]},
+    ],
+}
+
+PROPERTIES["C19"] = {
+    "level": "other",
+    "level_text": "bounded symbolic verification: for every domain (symbolic min/max for real parameters, windowed concrete bounds for integer ones, both comparator kinds) and every history of assignments of the configured length (symbolic reals, NaN/inf/boundary values, integers, strings from a small alphabet) the real parameter_t accepts exactly the in-domain values, reads them back as assigned, and rejects the others with an exception leaving the previous value",
+    "level_note": SRE_NOTE,
+    "technique": SRE_TECH,
+    "explanation": "C19 (first sentence): parameter_t::make_{scalar,integer,scalar_pair,integer_pair}, operator= (double, int64, tuple, string), value<>/value_pair<>, write/read round trip against a reference model written from the property.",
+    "assumptions": SRE_ASSUME + ["integer parameters: symbolic real assignments boxed to [-5.75, 6.75] (float->int conversion enumerated by the solver); out-of-range float->int conversion is UB in the source and outside the claim"],
+    "bounds": {"history length": "<= 3 (quick), <= 4 (thorough)", "integer window": "[-2,3]", "comparators": "all LE/LT combinations"},
+    "outside": ["parsing of arbitrary text (stod/stoll on garbage beyond the 4-string alphabet)", "enum parameters and the factory clause (defaults in domain, ids, clone equality): concrete enumeration, not a solver obligation - not claimed here"],
+    "units": [
+        {"engine": "sre", "harness": "C19_params", "sources": ["C19_params.cpp"],
+         "quick": ["kind=fr;lo=%d;hi=%d;ops=3;ser=%d" % (a, b, a) for a in (0, 1) for b in (0, 1)] + ["kind=fr;lo=0;hi=1;ops=2;sp=%d" % s for s in (1, 2, 3, 4, 5)] +
+                  ["kind=fp;ops=2;lo=0;mid=0;hi=0", "kind=fp;ops=2;lo=1;mid=1;hi=1", "kind=fp;ops=1;sp=1", "kind=ir;ops=2;lo=0;hi=1", "kind=ir;ops=2;lo=1;hi=0",
+                   "kind=ip;lo=1;hi=1;mid=0", "kind=ip;lo=0;hi=0;mid=1"],
+         "thorough": ["kind=fr;lo=%d;hi=%d;ops=4;ser=1" % (a, b) for a in (0, 1) for b in (0, 1)] + ["kind=fr;lo=%d;hi=%d;ops=2;sp=%d" % (a, 1 - a, s) for a in (0, 1) for s in (1, 2, 3, 4, 5)] +
+                     ["kind=fp;ops=2;lo=%d;mid=%d;hi=%d;ser=1" % (a, b, c) for a in (0, 1) for b in (0, 1) for c in (0, 1)] + ["kind=fp;ops=2;sp=%d" % s for s in (1, 2, 4, 5)] +
+                     ["kind=ir;ops=3;lo=%d;hi=%d" % (a, b) for a in (0, 1) for b in (0, 1)] + ["kind=ip;lo=%d;hi=%d;mid=%d" % (a, b, c) for a in (0, 1) for b in (0, 1) for c in (0, 1)],
+         "encoded": ["nano::parameter_t::make_scalar/_integer/_scalar_pair/_integer_pair", "nano::parameter_t::operator=(scalar/int64/tuple/string)", "(anonymous)::update(range_t/pair_range_t)",
+                     "(anonymous)::check(LEorLT)", "nano::parameter_t::value / value_pair", "nano::parameter_t::read / write", "nano::operator==(parameter_t)"]},
+    ],
+}
